@@ -144,6 +144,7 @@ package testscript
 //@   at call (*testscript.TestScript).MkAbs#1: bind abs2 = result
 //@   at call (*testscript.TestScript).ReadFile#1: bind text1G = result
 //@   at call diff.Diff#1: requires sid(old) == sid(text1) && sid(new) == sid(text2)
+//@   at call os.ReadFile#1: requires sameStr(name, abs2)
 //@   modifies Md_Int_Str, Mv_Int_Str, new bytes
 //@   ensures forall k int {mapkeys(ts.scriptUpdates)[k]} {mapvals(ts.scriptUpdates)[k]} :: (mapkeys(ts.scriptUpdates)[k] != old(mapkeys(ts.scriptUpdates))[k] || mapvals(ts.scriptUpdates)[k] != old(mapvals(ts.scriptUpdates))[k]) ==> (!neg && !env && ts.params.UpdateScripts && mapdom(ts.scriptFiles, abs2) && k == sid(ts.scriptFiles[abs2]) && sameStr(mapvals(ts.scriptUpdates)[k], text1G))
 //@   ensures forall r int {Md_Int_Str[r]} {Mv_Int_Str[r]} :: r != ts.scriptUpdates ==> Md_Int_Str[r] == old(Md_Int_Str)[r] && Mv_Int_Str[r] == old(Mv_Int_Str)[r]
@@ -366,6 +367,9 @@ package testscript
 
 // runLine: an unknown command never reaches the dispatcher; every index of args is in bounds.
 // (Its boolean result is produced by recover in catchFailNow: false exactly when Fatalf ran.)
+// (an error returned by a condition always fails the line: on a normal return of runLine no
+// condition call of this line has reported one)
+//@ ghost var gCondErrs Int
 //@ func (*TestScript).runLine
 //@   requires ts != nil && ts.envMap != nil
 //@   requires forall K {at(ts.background,K)} :: lo(ts.background) <= K && K < hi(ts.background) ==> at(ts.background,K).cmd != nil
@@ -378,7 +382,9 @@ package testscript
 //@   at call (*testscript.TestScript).parse#1: requires sameStr(line, my_line)
 //@   at call (*testscript.TestScript).callBuiltinCmd#1: requires cmd != nil && (scriptCmds[args[0]] != nil ==> cmd == scriptCmds[args[0]])
 //@   at call (*testscript.TestScript).condition#1: requires want == !(len(TrimSpace(mkseq(arrof(at(args, lo(args)-1)), lo(at(args, lo(args)-1))+1, hi(at(args, lo(args)-1))-1))) >= 1 && at(TrimSpace(mkseq(arrof(at(args, lo(args)-1)), lo(at(args, lo(args)-1))+1, hi(at(args, lo(args)-1))-1)), lo(TrimSpace(mkseq(arrof(at(args, lo(args)-1)), lo(at(args, lo(args)-1))+1, hi(at(args, lo(args)-1))-1)))) == '!')
-//@   loop 1: invariant len(args) >= 1
+//@   loop 1: invariant len(args) >= 1 && gCondErrs == old(gCondErrs)
+//@   at call (*testscript.TestScript).condition#1: ghost_after gCondErrs = gCondErrs + (err != nil ? 1 : 0)
+//@   ensures gCondErrs == old(gCondErrs)
 
 // run: no line is run after a failure unless ContinueOnError; nothing is run after
 // stop; PASS is logged only for a run that neither failed nor stopped; run returns
@@ -453,7 +459,7 @@ package testscript
 // ---- C04: isolation and clean-up ----
 //@ bounded C04: TestVerifBoundedWaitOne
 //@ bounded C01: TestVerifBoundedWaitVerdict
-//@ property C04: (*TestScript).setup, writeFile, (*TestScript).run, run$3, (*TestScript).waitBackground, (*TestScript).cmdExec, cmdExec$1, waitOrStop, (*TestScript).exec, (*TestScript).execBackground, (*TestScript).Defer, Defer$1, RunT, RunT$1, RunT$1$2, removeAll
+//@ property C04: (*TestScript).setup, writeFile, (*TestScript).run, run$3, (*TestScript).waitBackground, (*TestScript).cmdExec, cmdExec$1, waitOrStop, (*TestScript).exec, (*TestScript).execBackground, (*TestScript).Defer, Defer$1, RunT, RunT$1, RunT$1$2, removeAll, (*TestScript).cmdUNIX2DOS, (*TestScript).cmdUnquote, (*TestScript).cmdMv
 
 // Defer: the new chain runs f first and the old chain afterwards, and the old chain is
 // already deferred when f is called (so it runs even if f panics): LIFO.
@@ -632,6 +638,9 @@ package testscript
 //@ func (*TestScript).cmdUNIX2DOS
 //@   requires ts != nil
 //@   modifies new bytes, fsExists, fsData, fsSize, fsBytes, fsWrites, gOpFailed
+//@   at call os.ReadFile#1: requires sameStr(name, filename)
+//@   at call os.WriteFile#1: requires sameStr(name, filename)
+//@   at call (*testscript.TestScript).MkAbs#1: requires sameStr(file, arg)
 //@   loop 1: invariant -1 <= rangeindex && gOpFailed == old(gOpFailed)
 //@   ensures !neg && len(args) >= 1 && gOpFailed == old(gOpFailed)
 //@ func (*TestScript).cmdStdin
@@ -661,6 +670,7 @@ package testscript
 //@   requires forall K {at(ts.background,K)} :: lo(ts.background) <= K && K < hi(ts.background) ==> at(ts.background,K).cmd != nil
 //@   loop 1: invariant -1 <= rangeindex
 //@   noreturn
+//@   at call (*testscript.TestScript).cmdWait#1: requires !neg && len(args) == 0
 //@ func (*TestScript).cmdCp
 //@   requires ts != nil
 //@   modifies new bytes, new H_Str, fsExists, fsData, fsSize, fsBytes, fsWrites, gOpFailed
